@@ -4,6 +4,7 @@
    (EnforceTranslation: Proofs/SpecsCodon.v.  Here: AvoidChanges with max_edits = 0,
    EnforceSequence, EnforceChoice, AvoidRareCodons, EnforceChanges with minimum_percent = 100.) *)
 From Coq Require Import ZArith QArith Qabs Bool List Ascii String Lia Lqa.
+From Coq Require FinFun.
 From DC Require Import Model.Base Model.Loc Model.Bio Model.Pattern Model.MSpace Model.Specs
                        Generated.GenTables Proofs.SpecsDefs Proofs.BioA Proofs.BioB Proofs.MSpaceDefs
                        Proofs.MSpaceA Proofs.MSpaceD Proofs.LocProofs Proofs.SpecsLocalA Proofs.SpecsLocalB
@@ -163,20 +164,62 @@ Definition t5_idx (alph : list nuc) (n : nat) (strands : list Z) (only_cov : boo
       let sp := SEnforceChanges l (Some ix) (take_ix s ix) (Some (zlen ix)) None true in
       (lhsb sp s t, rhsb sp t))
       (all_seqs alph n)) (ix_lists (Z.of_nat n))) (all_locs (Z.of_nat n) strands)) (all_seqs alph n)).
-(* minimum = number of positions (what initialisation computes for 100 %):
+(* minimum = number of positions (what initialisation computes for 100 %); the nucleotide to avoid is
+   read in the stored reference (here: the reference read from s by initialisation):
      t5_loc ACGT 3 [0; 1] 0           = (81920, 0, 0)
      t5_loc AC 5 [0; 1] 0             = (43008, 0, 0)
-     t5_loc ACGT 3 [-1] 0             = (40960, 0, 0)    (strand -1 is excluded by the constructor)
+   strand -1 (never kept by EnforceChanges' constructor, which turns it into +1): the stored reference
+   is the reverse complement, so the restrictions exclude the COMPLEMENT of the original nucleotide
+     t5_loc AC 4 [-1] 0               = (2064, 1776, 0)     <- restrictions hold, evaluation fails
    indices mode, all locations / only the locations that contain every index:
      t5_idx AC 3 [0; 1; -1] false     = (15840, 9120, 0)    <- restrictions hold, evaluation fails
      t5_idx AC 3 [0; 1; -1] true      = (7680, 0, 0)
      t5_idx ACGT 3 [1] true           = (163840, 0, 0)
    minimum one below the number of positions (not what the library computes):
      t5_loc AC 3 [1] 1                = (456, 0, 184) *)
-Lemma t5_check : t5_loc AC 4 [0; 1; -1] 0 = (11520, 0, 0) /\
+Lemma t5_check : t5_loc AC 4 [0; 1] 0 = (7680, 0, 0) /\
                  t5_idx AC 3 [0; 1; -1] false = (15840, 9120, 0) /\
                  t5_idx AC 3 [0; 1; -1] true = (7680, 0, 0).
 Proof. split; [|split]; vm_compute; reflexivity. Qed.
+
+(* ---- 6. EnforceChanges, minimum_percent = 100, ANY stored reference of the right length *)
+Fixpoint nodupb (l : list Z) : bool :=
+  match l with [] => true | x :: r => negb (existsb (Z.eqb x) r) && nodupb r end.
+Definition ix_lists3 (n : Z) : list (list Z) :=
+  ix_lists n ++
+  flat_map (fun i => flat_map (fun j => map (fun k => [i; j; k]) (zrange 0 n)) (zrange 0 n)) (zrange 0 n).
+(* indices inside the location, every reference over [ralph] as long as the index list *)
+Definition t6_idx (alph ralph : list nuc) (n : nat) (strands : list Z) (need_nodup : bool) :=
+  tally (flat_map (fun s => flat_map (fun l => flat_map (fun ix =>
+      if negb (coversb l ix) || (need_nodup && negb (nodupb ix)) then [] else
+      flat_map (fun ref => map (fun t =>
+      let sp := SEnforceChanges l (Some ix) ref (Some (zlen ix)) None true in
+      (lhsb sp s t, rhsb sp t))
+      (all_seqs alph n)) (all_seqs ralph (List.length ix))) (ix_lists3 (Z.of_nat n)))
+      (all_locs (Z.of_nat n) strands)) (all_seqs alph n)).
+(* every reference over [ralph] as long as the location *)
+Definition t6_loc (alph ralph : list nuc) (n : nat) (strands : list Z) :=
+  tally (flat_map (fun s => flat_map (fun l => flat_map (fun ref => map (fun t =>
+      let sp := SEnforceChanges l None ref (Some (loc_len l)) None true in
+      (lhsb sp s t, rhsb sp t))
+      (all_seqs alph n)) (all_seqs ralph (Z.to_nat (loc_len l)))) (all_locs (Z.of_nat n) strands))
+      (all_seqs alph n)).
+(* index lists of length <= 3 without repetition, all references:
+     t6_idx AC AC 3 [0; 1; -1] true   = (22656, 0, 0)
+     t6_idx AC ACGT 3 [1] true        = (38016, 0, 0)
+   repetitions allowed (the last entry of a repeated index wins in the restrictions, the evaluation
+   compares every entry):
+     t6_idx AC AC 3 [1] false         = (26112, 4480, 0)    <- restrictions hold, evaluation fails
+   location mode:
+     t6_loc AC AC 3 [0; 1]            = (3328, 0, 0)
+     t6_loc AC ACGT 3 [0; 1]          = (14336, 0, 0)
+     t6_loc ACGT ACGT 2 [0; 1]        = (13824, 0, 0)
+     t6_loc AC AC 3 [-1]              = (640, 0, 1024)      <- evaluation passes, restrictions fail *)
+Lemma t6_check : t6_idx AC AC 3 [1] true = (7552, 0, 0) /\
+                 t6_idx AC AC 3 [1] false = (26112, 4480, 0) /\
+                 t6_loc AC AC 3 [0; 1] = (3328, 0, 0) /\
+                 t6_loc AC AC 3 [-1] = (640, 0, 1024).
+Proof. split; [|split; [|split]]; vm_compute; reflexivity. Qed.
 
 (* ================================================================== generic helpers *)
 
@@ -670,25 +713,161 @@ Qed.
 Lemma other_bases_In x y : In [x] (other_bases_of y) <-> x <> y.
 Proof. destruct x, y; cbn; split; intros H; try congruence; intuition congruence. Qed.
 
-Lemma holds_other_bases (s t : dna) i : 0 <= i < zlen s -> zlen t = zlen s ->
-  (holds (rchoice i (i + 1) (match pyslice s i (i + 1) with [x] => other_bases_of x | _ => [] end)) t <->
-   getn t i <> getn s i).
+(* one restriction choice of EnforceChanges: the nucleotide to avoid at position i is the LAST entry of
+   i in the pairs (position, reference letter) ([orig] is the reversed list of pairs); a position without
+   entry falls back on the sequence *)
+Definition ec_choice (orig : list (Z * nuc)) (s : dna) (i : Z) : choice :=
+  rchoice i (i + 1)
+    (match find (fun p => fst p =? i) orig with
+     | Some p => other_bases_of (snd p)
+     | None => match pyslice s i (i + 1) with [x] => other_bases_of x | _ => [] end
+     end).
+
+Lemma holds_ec_choice_found orig (s t : dna) i p : 0 <= i < zlen t ->
+  find (fun q => fst q =? i) orig = Some p ->
+  (holds (ec_choice orig s i) t <-> getn t i <> snd p).
 Proof.
-  intros Hi Hz. rewrite holds_rchoice, pysliceB_eq, !slice_getn by lia. apply other_bases_In.
+  intros Hi E. unfold ec_choice. rewrite E, holds_rchoice, slice_getn by lia. apply other_bases_In.
 Qed.
 
+(* a key that occurs is found, under that key *)
+Lemma find_key_some (L : list (Z * nuc)) i : In i (map fst L) ->
+  exists p, find (fun q => fst q =? i) L = Some p /\ In p L /\ fst p = i.
+Proof.
+  intros H. destruct (find (fun q => fst q =? i) L) as [p|] eqn:E.
+  - exists p. split; [reflexivity|]. apply find_some in E. destruct E as [Hin Hk].
+    split; [exact Hin | apply Z.eqb_eq; exact Hk].
+  - exfalso. apply in_map_iff in H. destruct H as [p [Hp Hin]].
+    pose proof (find_none _ _ E p Hin) as Hn. cbv beta in Hn. rewrite Hp, Z.eqb_refl in Hn. discriminate Hn.
+Qed.
+
+(* distinct keys: every entry is the one found under its key *)
+Lemma find_key_nodup (L : list (Z * nuc)) p : NoDup (map fst L) -> In p L ->
+  find (fun q => fst q =? fst p) L = Some p.
+Proof.
+  induction L as [|q L IH]; intros Hnd Hin; [destruct Hin|].
+  cbn [map] in Hnd. inversion Hnd as [|? ? Hnotin Hnd']; subst. cbn [find].
+  destruct Hin as [->|Hin].
+  - rewrite Z.eqb_refl. reflexivity.
+  - destruct (Z.eqb_spec (fst q) (fst p)) as [E|E].
+    + exfalso. apply Hnotin. rewrite E. apply in_map. exact Hin.
+    + apply IH; assumption.
+Qed.
+
+Lemma rm_map_fst_combine {X Y} (a : list X) (b : list Y) :
+  List.length a = List.length b -> map fst (combine a b) = a.
+Proof.
+  revert b. induction a as [|x a IH]; intros [|y b] H; cbn [List.length] in H; try discriminate H;
+    cbn [combine map fst]; [reflexivity|]. f_equal. apply IH. lia.
+Qed.
+
+Lemma in_combine_map {X Y} (f : X -> Y) (l : list X) p : In p (combine l (map f l)) -> snd p = f (fst p).
+Proof.
+  induction l as [|x l IH]; cbn [map combine In]; [tauto|]. intros [<-|H]; [reflexivity | apply IH; exact H].
+Qed.
+
+Lemma Forall2_map_combine {X} (R : nuc -> nuc -> Prop) (f : X -> nuc) (P : list X) (r : dna) :
+  List.length P = List.length r ->
+  (Forall2 R (map f P) r <-> Forall (fun p => R (f (fst p)) (snd p)) (combine P r)).
+Proof.
+  revert r. induction P as [|x P IH]; intros [|y r] H; cbn [List.length] in H; try discriminate H;
+    cbn [map combine].
+  - split; constructor.
+  - assert (Hl : List.length P = List.length r) by lia.
+    split; intros H'; inversion H'; subst; constructor; try assumption; apply (IH r Hl); assumption.
+Qed.
+
+Lemma rm_zrange_NoDup a b : NoDup (zrange a b).
+Proof.
+  unfold zrange. apply FinFun.Injective_map_NoDup; [|apply seq_NoDup]. intros x y H. lia.
+Qed.
+
+Lemma slice_map_getn (t : dna) a b : 0 <= a <= b -> b <= zlen t -> slice t a b = map (getn t) (zrange a b).
+Proof.
+  intros H1 H2. remember (Z.to_nat (b - a)) as n eqn:En. revert a H1 En.
+  induction n as [|n IH]; intros a H1 En.
+  - assert (a = b) by lia. subst b. rewrite slice_empty, zrange_empty by lia. reflexivity.
+  - rewrite (slice_cons t a b), (zrange_cons' a b) by lia. cbn [map]. f_equal. apply IH; lia.
+Qed.
+
+(* distinct positions P paired with ANY reference r of the same length: the choices hold on t iff t
+   differs from the reference at every position *)
+Lemma ec_choices_any_reference (P : list Z) (r s t : dna) :
+  NoDup P -> List.length P = List.length r -> Forall (fun i => 0 <= i < zlen t) P ->
+  (Forall (fun i => holds (ec_choice (rev (combine P r)) s i) t) P <->
+   Forall2 (fun x y => x <> y) (map (getn t) P) r).
+Proof.
+  intros Hnd Hlen Hb. rewrite Forall2_map_combine by exact Hlen.
+  set (Q := fun i => holds (ec_choice (rev (combine P r)) s i) t).
+  assert (HQ : Forall Q P <-> Forall (fun p => Q (fst p)) (combine P r)).
+  { rewrite <- (Forall_map fst Q), rm_map_fst_combine by exact Hlen. reflexivity. }
+  rewrite HQ. clear HQ. unfold Q. clear Q.
+  assert (Hkeys : NoDup (map fst (rev (combine P r)))).
+  { rewrite map_rev, rm_map_fst_combine by exact Hlen. apply NoDup_rev. exact Hnd. }
+  rewrite Forall_forall in Hb. rewrite !Forall_forall.
+  split; intros H p Hp; specialize (H p Hp);
+    (assert (Hi : 0 <= fst p < zlen t)
+       by (apply Hb; destruct p as [i y]; apply in_combine_l in Hp; exact Hp));
+    apply (holds_ec_choice_found (rev (combine P r)) s t (fst p) p Hi
+             (find_key_nodup _ p Hkeys (proj1 (in_rev _ _) Hp))); exact H.
+Qed.
+
+(* positions ix (repetitions allowed) paired with the letters of s at these positions *)
+Lemma ec_choices_own_reference (ix : list Z) (s t : dna) :
+  Forall (fun i => 0 <= i < zlen t) ix ->
+  (Forall (fun i => holds (ec_choice (rev (combine ix (map (getn s) ix))) s i) t) ix <->
+   Forall (fun i => getn t i <> getn s i) ix).
+Proof.
+  intros Hb. rewrite Forall_forall in Hb. rewrite !Forall_forall.
+  assert (Hfind : forall i, In i ix -> exists p,
+            find (fun q => fst q =? i) (rev (combine ix (map (getn s) ix))) = Some p /\ snd p = getn s i).
+  { intros i Hi.
+    destruct (find_key_some (rev (combine ix (map (getn s) ix))) i) as [p [Hf [Hin Hk]]].
+    - rewrite map_rev, rm_map_fst_combine by (rewrite map_length; reflexivity). apply in_rev in Hi. exact Hi.
+    - exists p. split; [exact Hf|]. apply in_rev in Hin. apply in_combine_map in Hin. rewrite Hin, Hk. reflexivity. }
+  split; intros H i Hi; specialize (H i Hi); destruct (Hfind i Hi) as [p [Hf Hs]];
+    pose proof (holds_ec_choice_found _ s t i p (Hb i Hi) Hf) as Hh; rewrite Hs in Hh; apply Hh; exact H.
+Qed.
+
+(* location mode, a location that is not on strand -1, ANY reference as long as the location *)
+Lemma enforce_changes_location_any_reference l ref am (s t : dna) :
+  loc_in l (zlen s) -> lstrand l <> -1 -> zlen ref = loc_len l -> zlen t = zlen s ->
+  let sp := SEnforceChanges l None ref (Some (n_positions l None)) am true in
+  (Forall (fun r => holds r t) (restrict_nucleotides sp false s) <->
+   exists e, evaluate sp t = Some e /\ passes e = true).
+Proof.
+  intros Hl Hst Hr Hz. cbv zeta. cbn [restrict_nucleotides].
+  apply loc_in_bounds in Hl. destruct Hl as [H1 H2].
+  destruct (Z.eqb_spec (lstrand l) (-1)) as [E|_]; [contradiction|].
+  assert (Hlen : List.length (zrange (lstart l) (lend l)) = List.length ref).
+  { rewrite LocProofs.zrange_length. unfold loc_len, zlen in Hr. lia. }
+  rewrite (enforce_changes_pass l None ref am t (extract l t));
+    [| reflexivity | rewrite extract_length by lia; rewrite <- Hlen; symmetry; apply LocProofs.zrange_length].
+  rewrite extract_fwd, slice_map_getn by lia.
+  rewrite <- (ec_choices_any_reference (zrange (lstart l) (lend l)) ref s t (rm_zrange_NoDup _ _) Hlen).
+  - rewrite Forall_map. reflexivity.
+  - apply Forall_forall. intros i Hi. apply in_zrange in Hi. lia.
+Qed.
+
+(* The hypothesis [forward_if_location] (the location of a location-mode instance is not on strand -1)
+   was ADDED when the restrictions started to read the stored reference (dict(zip(positions,
+   reference))): on strand -1 the reference read by initialisation is the reverse complement, so the
+   restrictions would exclude the complement of the original nucleotide; see
+   [enforce_changes_reverse_strand_refuted].  EnforceChanges' constructor never keeps strand -1
+   (wf_spec has the same condition). *)
+Definition forward_if_location (l : loc) (idx : option (list Z)) : Prop :=
+  match idx with None => lstrand l <> -1 | Some _ => True end.
+
 Theorem enforce_changes_restrictions_exact_partial : forall l idx ref am s t,
-  changes_init l idx ref s -> idx_covered l idx -> zlen t = zlen s ->
+  changes_init l idx ref s -> forward_if_location l idx -> idx_covered l idx -> zlen t = zlen s ->
   let sp := SEnforceChanges l idx ref (Some (n_positions l idx)) am true in
   (Forall (fun r => holds r t) (restrict_nucleotides sp false s) <->
    exists e, evaluate sp t = Some e /\ passes e = true).
 Proof.
-  intros l idx ref am s t Hinit Hcov Hz. cbv zeta. cbn [restrict_nucleotides].
-  assert (HR : forall x y : nuc, ncomp x <> ncomp y <-> x <> y).
-  { intros x y. split; intros H E; apply H; [congruence|].
-    rewrite <- (ncomp_involutive x), E. apply ncomp_involutive. }
+  intros l idx ref am s t Hinit Hfw Hcov Hz.
   destruct idx as [ix|].
-  - cbn [changes_init idx_covered] in Hinit, Hcov.
+  - cbv zeta. cbn [restrict_nucleotides].
+    cbn [changes_init idx_covered] in Hinit, Hcov.
     pose proof (take_indices_bounds s ix ref Hinit) as Hb.
     pose proof (take_indices_getn s ix ref Hinit) as ->.
     assert (Hbt : Forall (fun i => 0 <= i < zlen t) ix) by (rewrite Hz; exact Hb).
@@ -696,28 +875,98 @@ Proof.
       [| cbn [extract_subsequence]; apply take_indices_some; exact Hbt | rewrite !map_length; reflexivity].
     rewrite (Forall_map_filter_covered (fun r => holds r t)) by exact Hcov.
     rewrite Forall2_same_map.
-    rewrite !Forall_forall. rewrite Forall_forall in Hb.
-    split; intros H i Hi; specialize (H i Hi); specialize (Hb i Hi);
-      apply (holds_other_bases s t i Hb Hz); exact H.
-  - cbn [changes_init] in Hinit. destruct Hinit as [Hl ->]. apply loc_in_bounds in Hl. destruct Hl as [H1 H2].
-    rewrite (enforce_changes_pass l None (extract l s) am t (extract l t));
-      [| reflexivity | rewrite !extract_length by lia; reflexivity].
-    rewrite (extract_Forall2 (fun x y => x <> y) l s t HR) by lia.
-    rewrite Forall_map, Forall_forall.
-    split; intros H i Hi.
-    + apply (holds_other_bases s t i ltac:(lia) Hz). apply H. apply in_zrange. exact Hi.
-    + apply in_zrange in Hi. apply (holds_other_bases s t i ltac:(lia) Hz). apply H. exact Hi.
+    apply (ec_choices_own_reference ix s t Hbt).
+  - cbn [changes_init] in Hinit. destruct Hinit as [Hl ->]. cbn [forward_if_location] in Hfw.
+    pose proof (loc_in_bounds _ _ Hl) as [H1 H2].
+    apply enforce_changes_location_any_reference; [exact Hl | exact Hfw | | exact Hz].
+    unfold zlen. rewrite extract_length by lia. unfold loc_len. lia.
 Qed.
 
 Corollary enforce_changes_location_restrictions_exact : forall l am s t,
-  loc_in l (zlen s) -> zlen t = zlen s ->
+  loc_in l (zlen s) -> lstrand l <> -1 -> zlen t = zlen s ->
   let sp := SEnforceChanges l None (extract l s) (Some (loc_len l)) am true in
   (Forall (fun r => holds r t) (restrict_nucleotides sp false s) <->
    exists e, evaluate sp t = Some e /\ passes e = true).
 Proof.
-  intros l am s t Hl Hz.
+  intros l am s t Hl Hst Hz.
   apply (enforce_changes_restrictions_exact_partial l None (extract l s) am s t);
-    [split; [exact Hl | reflexivity] | exact I | exact Hz].
+    [split; [exact Hl | reflexivity] | exact Hst | exact I | exact Hz].
+Qed.
+
+(* ANY stored reference (not necessarily read from the problem's sequence): the restrictions read the
+   nucleotide to avoid in the reference, as the evaluation does.  Needed: in indices mode, distinct
+   indices (for a repeated index the restrictions keep the last reference letter only, the evaluation
+   compares each of them: t6_idx ... false above); in location mode, a location that is not on
+   strand -1. *)
+Definition reference_fits (l : loc) (idx : option (list Z)) (ref s : dna) : Prop :=
+  match idx with
+  | Some ix => NoDup ix /\ Forall (fun i => 0 <= i < zlen s) ix /\ List.length ref = List.length ix
+  | None => loc_in l (zlen s) /\ lstrand l <> -1 /\ zlen ref = loc_len l
+  end.
+
+Theorem enforce_changes_restrictions_exact_any_reference : forall l idx ref am s t,
+  reference_fits l idx ref s -> idx_covered l idx -> zlen t = zlen s ->
+  let sp := SEnforceChanges l idx ref (Some (n_positions l idx)) am true in
+  (Forall (fun r => holds r t) (restrict_nucleotides sp false s) <->
+   exists e, evaluate sp t = Some e /\ passes e = true).
+Proof.
+  intros l idx ref am s t Hfit Hcov Hz.
+  destruct idx as [ix|].
+  - cbv zeta. cbn [restrict_nucleotides].
+    cbn [reference_fits idx_covered] in Hfit, Hcov. destruct Hfit as (Hnd & Hb & Hlen).
+    assert (Hbt : Forall (fun i => 0 <= i < zlen t) ix) by (rewrite Hz; exact Hb).
+    rewrite (enforce_changes_pass l (Some ix) ref am t (map (getn t) ix));
+      [| cbn [extract_subsequence]; apply take_indices_some; exact Hbt | rewrite map_length; symmetry; exact Hlen].
+    rewrite (Forall_map_filter_covered (fun r => holds r t)) by exact Hcov.
+    apply (ec_choices_any_reference ix ref s t Hnd (eq_sym Hlen) Hbt).
+  - cbn [reference_fits] in Hfit. destruct Hfit as (Hl & Hst & Hr).
+    apply enforce_changes_location_any_reference; assumption.
+Qed.
+
+(* REFUTED in location mode on strand -1 (a location EnforceChanges' constructor never keeps):
+   location (0, 1, -1) on s = "A": the reference read from s is the reverse complement "T", the only
+   restriction is "position 0 is not T", which t = "A" satisfies; the evaluation of t finds its
+   reverse complement "T" equal to the reference (0 changes < 1). *)
+Theorem enforce_changes_reverse_strand_refuted :
+  exists l ref am s t,
+    changes_init l None ref s /\ zlen t = zlen s /\
+    let sp := SEnforceChanges l None ref (Some (n_positions l None)) am true in
+    ~ (Forall (fun r => holds r t) (restrict_nucleotides sp false s) <->
+       exists e, evaluate sp t = Some e /\ passes e = true).
+Proof.
+  exists (mkLoc 0 1 (-1)), [nT], None, [nA], [nA].
+  split; [|split].
+  - split; [|reflexivity]. unfold loc_in. cbn. lia.
+  - reflexivity.
+  - cbv zeta. rewrite <- lhsb_iff, <- rhsb_iff. intros [H _].
+    assert (Hl : lhsb (SEnforceChanges (mkLoc 0 1 (-1)) None [nT] (Some (n_positions (mkLoc 0 1 (-1)) None)) None true)
+                      [nA] [nA] = true) by (vm_compute; reflexivity).
+    apply H in Hl. vm_compute in Hl. discriminate Hl.
+Qed.
+
+(* the same failure for an arbitrary reference in indices mode with a repeated index:
+   indices [2; 2], reference "AC" on s = "AAA": the restrictions only say "position 2 is not C"
+   (the last entry wins), t = "AAA" satisfies them and fails the evaluation (1 change < 2) *)
+Theorem enforce_changes_repeated_index_refuted :
+  exists l ix ref am s t,
+    Forall (fun i => 0 <= i < zlen s) ix /\ List.length ref = List.length ix /\
+    idx_covered l (Some ix) /\ zlen t = zlen s /\
+    let sp := SEnforceChanges l (Some ix) ref (Some (n_positions l (Some ix))) am true in
+    ~ (Forall (fun r => holds r t) (restrict_nucleotides sp false s) <->
+       exists e, evaluate sp t = Some e /\ passes e = true).
+Proof.
+  exists (mkLoc 0 3 1), [2; 2], [nA; nC], None, [nA; nA; nA], [nA; nA; nA].
+  assert (H2 : 0 <= 2 < zlen [nA; nA; nA]) by (change (zlen [nA; nA; nA]) with 3; lia).
+  split; [|split; [|split; [|split]]].
+  - repeat constructor; apply H2.
+  - reflexivity.
+  - cbn [idx_covered lstart lend]. repeat constructor; lia.
+  - reflexivity.
+  - cbv zeta. rewrite <- lhsb_iff, <- rhsb_iff. intros [H _].
+    assert (Hl : lhsb (SEnforceChanges (mkLoc 0 3 1) (Some [2; 2]) [nA; nC]
+                         (Some (n_positions (mkLoc 0 3 1) (Some [2; 2]))) None true)
+                      [nA; nA; nA] [nA; nA; nA] = true) by (vm_compute; reflexivity).
+    apply H in Hl. vm_compute in Hl. discriminate Hl.
 Qed.
 
 (* REFUTED in indices mode without the coverage hypothesis: EnforceChanges(minimum_percent=100,
@@ -936,7 +1185,8 @@ Definition c04_init (sp : spec) (s : dna) : Prop :=
   match sp with
   | SAvoidChanges l idx tg _ => changes_init l idx tg s /\ idx_covered l idx
   | SEnforceChanges l idx ref mn _ _ =>
-      changes_init l idx ref s /\ idx_covered l idx /\ mn = Some (n_positions l idx)
+      changes_init l idx ref s /\ forward_if_location l idx /\ idx_covered l idx /\
+      mn = Some (n_positions l idx)
   | SEnforceSequence _ l | SEnforceChoice _ l => loc_in l (zlen s)
   | SRareCodons fr _ l =>
       loc_in l (zlen s) /\ (loc_len l) mod 3 = 0 /\ table_total fr /\ NoDup (map fst fr)
@@ -951,21 +1201,9 @@ Proof.
   intros sp s t Hc Hi Hz. destruct sp; cbn [c04_class] in Hc; try contradiction.
   - subst max_edits. destruct Hi as [H1 H2]. apply avoid_changes_restrictions_exact_partial; assumption.
   - destruct minimum as [m|]; [|contradiction]. destruct amount_percent_is_100; [|contradiction].
-    destruct Hi as (H1 & H2 & H3). injection H3 as ->.
+    destruct Hi as (H1 & Hfw & H2 & H3). injection H3 as ->.
     apply (enforce_changes_restrictions_exact_partial l indices reference amount s t); assumption.
   - apply enforce_sequence_restrictions_exact; assumption.
   - apply enforce_choice_restrictions_exact; assumption.
   - destruct Hi as (H1 & H2 & H3 & H4). apply rare_codons_restrictions_exact; assumption.
 Qed.
-
-
-
-
-
-
-
-
-
-
-
-
